@@ -50,7 +50,9 @@ def one(d):
             res["error"] = "cannot parse demo_run"
             return res
         dest, cmd = m.group(1), m.group(2)
+        dest = re.sub(r"^/tmp/wt2?-C\d+/", "", dest)            # sub-agents sometimes name their own worktree
         cmd = re.sub(r"\(.*$", "", cmd).strip()
+        cmd = re.sub(r"cd /tmp/\S+ && ", "", cmd)
         pkgs = sorted({os.path.dirname(l[6:].strip()) for l in open(os.path.join(d, "patch.diff")) if l.startswith("+++ b/")})
         def demo():
             shutil.copy(os.path.join(d, "demo_test.go"), os.path.join(wt, dest))
